@@ -30,15 +30,18 @@ TRUSTED = [
 UNPROVED = [
     "double rounding inside the samplers (the theorems are over R; the direct check on the extracted law of the "
     "running code covers it up to the 1e-6 slack, with an absolute allowance of one grid cell 2^-53 per break-point)",
-    "ExponentialCategorical: the np.isclose-based balanced flag is only justified when the normalisers are EQUAL; "
-    "the end-to-end theorem carries that hypothesis (cat_dp_partial), the full claim is the Prop cat_dp_full",
+    "ExponentialCategorical: the balanced flag (np.isclose with rtol=1e-12, atol=0 since 252dfe7) is justified in "
+    "exact arithmetic only when the normalisers are EQUAL; the end-to-end theorem carries that hypothesis "
+    "(cat_dp_partial), the full claim is the Prop cat_dp_full; the 1e-12 relative gap is inside the 1e-6 slack",
     "GeometricFolded with epsilon/sensitivity below the extraction threshold: the law is not extracted (too many "
     "atoms); covered by output correspondence + geom_dp/dp_postprocess only",
 ]
 RULE = ("parameter points per mechanism family from the seed: epsilon log-uniform in (1e-4, 50], integer/real "
         "sensitivity incl. 0, integer/half-integer/infinite bounds, utility vectors / measures / utility lists / "
         "hierarchies of size 1..8; neighbours: integers <= sensitivity apart (incl. exactly), any two labels, utility "
-        "vectors within sensitivity in sup-norm (only increasing when monotonic). A case is one (mechanism, parameters, "
+        "vectors within sensitivity in sup-norm (only increasing when monotonic); measures are non-negative with a "
+        "positive total (an all-zero measure gives NaN probabilities and is outside the quantifier; negative entries "
+        "must be refused — regression stream for 47698b4). A case is one (mechanism, parameters, "
         "neighbour pair); non-trivial when both laws have at least two atoms of mass >= 1e-9; distinct by its "
         "canonical parameter tuple")
 
@@ -777,6 +780,26 @@ def check_exponential(ctx, r, n, negative=False):
                 ms[r.next() % k] += 3.0
             c["measure"] = ms
         laws = {}
+        if negative:
+            # since 47698b4 the constructor must refuse a negative measure entry, and `_check_all` must refuse one that
+            # was assigned to the attribute afterwards; if either is accepted the law is extracted and checked as before
+            try:
+                build_exp(c, c["utility"])[0](seams.ScriptedSystemRandom(uniforms=[0.5], cycle=True))
+                ctx.count("negative_measure_accepted")
+            except ValueError:
+                ctx.count("negative_measure_refused")
+                good = dict(c, measure=[abs(m) for m in c["measure"]])
+                mech = build_exp(good, c["utility"])[0](seams.ScriptedSystemRandom(uniforms=[0.5], cycle=True))
+                mech.measure = list(c["measure"])
+                try:
+                    mech.randomise()
+                    ctx.violation("C01:exponential:negative-measure", "a negative measure assigned to the attribute after "
+                                  "construction is not re-validated by randomise()", {"family": "Exponential", "params": c,
+                                                                                      "mode": "attribute"})
+                except ValueError:
+                    ctx.trace_ok()
+                ctx.case(("negmeasure", tuple(c["measure"])))
+                continue
         try:
             for tag in ("utility", "utility_p"):
                 b, cands = build_exp(c, c[tag])
@@ -1227,8 +1250,10 @@ def cat_output_lines(r, sc, laws, eps, triples, ranks, labels, params, lines, ca
 
 def check_categorical(ctx, r, n):
     lines, cases = [], []
-    for _ in range(n):
-        c = gen_cat_case(r)
+    fixed = [{"epsilon": ISCLOSE_WITNESS["params"]["epsilon"], "utility_list": ISCLOSE_WITNESS["params"]["utility_list"],
+              "mode": "regression witness of 252dfe7"}]
+    for i in range(n):
+        c = fixed[i] if i < len(fixed) else gen_cat_case(r)
         eps, ul = c["epsilon"], c["utility_list"]
         labels = []
         for a, b, _ in ul:
@@ -1437,7 +1462,21 @@ def still_fails(d):
 
 def replay(ctx, data):
     d = _unj(data["data"])
-    fails, a, b = still_fails(d)
+    if d.get("mode") == "attribute":
+        c = d["params"]
+        good = dict(c, measure=[abs(m) for m in c["measure"]])
+        mech = build_exp(good, c["utility"])[0](seams.ScriptedSystemRandom(uniforms=[0.5], cycle=True))
+        mech.measure = list(c["measure"])
+        try:
+            mech.randomise()
+            return True
+        except ValueError:
+            return False
+    try:
+        fails, a, b = still_fails(d)
+    except ValueError as e:
+        print(f"replay: the constructor now refuses this configuration ({e})")
+        return False
     print(f"replay: P[{d['atom']}|x]={a!r}  P[{d['atom']}|x']={b!r}  e^eps={exp_eps(d['eps'])!r}")
     return bool(fails)
 
@@ -1465,7 +1504,10 @@ NEGMEASURE_WITNESS = {
 
 
 def _wit_negmeasure(ctx):
-    fails, a, b = still_fails(NEGMEASURE_WITNESS)
+    try:
+        fails, a, b = still_fails(NEGMEASURE_WITNESS)
+    except ValueError:
+        return False, "Exponential refuses negative measure entries (47698b4)"
     return bool(fails), ("Exponential(epsilon=1, sensitivity=1, measure=[-1, 1, 1]) accepts the negative measure entry; the "
                          f"cumulative probabilities are not monotone: utility [0,1,0] selects candidate 1 with probability {a:.6g}, "
                          f"the neighbouring utility [0,0,0] with probability {b:.3g} (ratio unbounded, e^eps = e)")
